@@ -124,9 +124,22 @@ def build_repo(root, packed, fsync=False):
     for o in (b3, t3, c3):
         rs.object_store.add_object(o)
     rs.refs[b"refs/heads/master"] = c3.id
+    # a side chain s1 <- s2 <- s3 that wt knows nothing about (source of the depth-limited fetches)
+    chain = []
+    prev = None
+    for k in (1, 2, 3):
+        bs = Blob.from_string(b"side chain %d\n" % k)
+        ts = Tree()
+        ts.add(b"s", 0o100644, bs.id)
+        cs = _mk(prev, ts.id, b"side %d\n" % k, 1000000300 + k)
+        for o in (bs, ts, cs):
+            rs.object_store.add_object(o)
+        prev = cs.id
+        chain.append(cs)
+    rs.refs[b"refs/heads/sidechain"] = chain[-1].id
     rs.close()
     with open(os.path.join(root, "ids"), "w") as f:
-        f.write(" ".join(x.decode() for x in (b1.id, b2.id, t1.id, t2.id, c1.id, c2.id, tag.id, junk.id, b3.id, t3.id, c3.id)))
+        f.write(" ".join(x.decode() for x in (b1.id, b2.id, t1.id, t2.id, c1.id, c2.id, tag.id, junk.id, b3.id, t3.id, c3.id, chain[-1].id)))
     # a genuinely thin pack (REF delta against b2, which only the receiver has), made by C git
     p = git(["pack-objects", "--thin", "--stdout", "--revs", "--window=10", "--depth=10"], cwd=s, input=c3.id + b"\n^" + c2.id + b"\n")
     thin = p.stdout
@@ -140,7 +153,7 @@ def build_repo(root, packed, fsync=False):
 
 def ids(root):
     with open(os.path.join(root, "ids")) as f:
-        names = "b1 b2 t1 t2 c1 c2 tag junk b3 t3 c3".split()
+        names = "b1 b2 t1 t2 c1 c2 tag junk b3 t3 c3 s3".split()
         return dict(zip(names, (x.encode() for x in f.read().split())))
 
 
@@ -420,6 +433,23 @@ def op_fetch(root):
     porcelain.fetch(os.path.join(root, "wt"), os.path.join(root, "src"), errstream=open(os.devnull, "wb"), outstream=open(os.devnull, "wb"))
 
 
+def op_fetch_deepen(root):
+    """depth=1 fetch of a new branch followed by a deepening fetch, over the pipe transport against C git upload-pack:
+    the second answer carries `unshallow`, and the shallow file must not run ahead of the pack."""
+    from dulwich.client import SubprocessGitClient
+    from dulwich.repo import Repo
+
+    i = ids(root)
+    r = Repo(os.path.join(root, "wt"))
+    try:
+        for depth in (1, 3):
+            c = SubprocessGitClient()
+            c.fetch(os.path.join(root, "src"), r, determine_wants=lambda refs, depth=None: [i["s3"]], depth=depth)
+            r.refs[b"refs/heads/fetched"] = i["s3"]
+    finally:
+        r.close()
+
+
 def op_push(root):
     """receive-pack of one new commit: local push src -> wt (branch 'incoming')."""
     from dulwich.client import LocalGitClient
@@ -476,6 +506,7 @@ OPS = {
     "write_commit_graph": op_commit_graph,
     "write_midx": op_midx,
     "porcelain.fetch": op_fetch,
+    "fetch depth=1 then deepen (git upload-pack)": op_fetch_deepen,
     "local push (receive)": op_push,
     "porcelain.add": op_stage,
 }
@@ -484,6 +515,7 @@ QUICK_OPS = [
     "add_objects", "add_thin_pack", "pack_loose_objects", "repack", "garbage_collect(grace=0)", "Index.write",
     "ConfigFile.write_to_path", "set_symbolic_ref(HEAD)", "local push (receive)",
     "remove_if_equals(both)", "del refs[both]", "locked_ref.delete(both)", "set_if_equals(both)",
+    "porcelain.add", "fetch depth=1 then deepen (git upload-pack)",
 ]
 
 
@@ -577,6 +609,10 @@ def closure(root, tips):
     bad = []
     r = Repo(os.path.join(root, "wt"))
     try:
+        try:
+            shallow = set(r.get_shallow())  # history is cut below these commits on purpose
+        except Exception:
+            shallow = set()
         todo = [t for t in tips if t]
         while todo:
             oid = todo.pop()
@@ -590,7 +626,8 @@ def closure(root, tips):
                 continue
             if isinstance(o, Commit):
                 todo.append(o.tree)
-                todo.extend(o.parents)
+                if oid not in shallow:
+                    todo.extend(o.parents)
             elif isinstance(o, Tree):
                 for e in o.items():
                     if e.mode != 0o160000:
@@ -628,6 +665,13 @@ def judge(name, start, old, new, now, root, where):
         break
     if "iter_error" in now:
         out.append((K + "object-store-unlistable", "%s: iterating the store raised %s" % (where, now["iter_error"])))
+    if isinstance(now["index"], list):
+        for path_, ent in now["index"]:
+            shas = [ent[1]] if ent and ent[0] != "conflict" else [st[1] for st in ent[1:] if st]
+            gone = [x for x in shas if isinstance(x, bytes) and now["objects"].get(x) != x and ent[0] != 0o160000]
+            if gone:
+                out.append((K + "index-names-missing-object", "%s: index entry %r names %s, which is not in the store" % (where, path_, gone[0][:10].decode())))
+                break
     if now["index"] != old["index"] and now["index"] != new["index"]:
         out.append((K + "index-neither-old-nor-new", "%s: index is %s" % (where, str(now["index"])[:120])))
     if now["config"] != old["config"] and now["config"] != new["config"]:
